@@ -222,6 +222,32 @@ def r152(an: Analysis, rep):
                         n += 1
                         rep.add("R15.2", f"{f.qual}::{norm_src(c)}", False, loc(f.module, c),
                                 f"{c.func.id}() result depends on the interpreter / process")
+    # feature detection on builtin types = behaviour that differs between interpreter versions
+    builtin_types = {"str", "bytes", "int", "float", "dict", "list", "tuple", "set", "frozenset", "object", "type"}
+    for entry in ENTRIES:
+        for f in an.closure(entry, (3, 10)):
+            for c in ast.walk(f.node):
+                if isinstance(c, ast.Call) and isinstance(c.func, ast.Name) and c.func.id in ("hasattr", "getattr") and len(c.args) >= 2 and isinstance(c.args[1], ast.Constant):
+                    tgt = c.args[0]
+                    it_, _ = an.interp(entry, (3, 10))
+                    vals = it_.value_at(tgt)
+                    on_builtin = (isinstance(tgt, ast.Name) and tgt.id in builtin_types) or any(
+                        (a[0] == "src" and (it_.tg.unfold_rec(it_.src_type(a))[0] in ("leaf", "tuple", "list", "dict"))) or a[0] in ("const", "der") for a in vals)
+                    if c.func.id == "hasattr" and on_builtin:
+                        n += 1
+                        rep.add("R15.2", f"{f.qual}::{norm_src(c)}", False, loc(f.module, c),
+                                f"`{norm_src(c)}` tests whether a builtin value has the method {c.args[1].value!r}: that differs between interpreter versions (e.g. str.removeprefix exists "
+                                f"from 3.9), so the two branches run on different hosts and a document is decoded differently depending on where it is loaded")
+    from . import c07 as _c07
+    it_ord, _ = an.interp("from_json")
+    for g in an.closure("from_json"):
+        for c in ast.walk(g.node):
+            if isinstance(c, ast.Call) and isinstance(c.func, ast.Name) and c.func.id == "next" and c.args and isinstance(c.args[0], ast.Call) \
+                    and isinstance(c.args[0].func, ast.Name) and c.args[0].func.id == "iter" and c.args[0].args and any(a[0] == "src" for a in it_ord.value_at(c.args[0].args[0])):
+                n += 1
+                rep.add("R15.2", f"{g.qual}::{norm_src(c)} does not depend on member order", False, loc(g.module, c),
+                        f"`{norm_src(c)}` takes the first member of a JSON object: documents exchanged in canonical form (sorted keys) or written by another JSON library are not "
+                        f"decoded the same way")
     rep.add("R15.2", "scan::denylisted builtins in the three closures", True, "code_data/_json_data.py",
             f"{n} call sites of repr/ascii/str(int)/int(str)/hash examined", nontrivial=False)
 
